@@ -14,7 +14,7 @@ RULE = ("exhaustive: every grammar with start S, <=2 alternatives per non-termin
         "random: 1-6 non-terminals (some already carrying a prime/subscript suffix), 1-3 terminals, 1-4 alternatives, bodies up to 8 "
         "symbols with weighted epsilon / unit / left-recursive / common-prefix alternatives; adversarial: long bodies nullable at every "
         "position, unit cycles, indirect left recursion chains, nested common prefixes, epsilon-only / unit-only / purely left-recursive "
-        "non-terminals, long mixed bodies, two or three distinct factorable prefixes per head plus singleton alternatives, terminals spelled like non-terminals (also like suffixed names) at body position 0 and elsewhere, the endmarker declared or used as a terminal of the caller's grammar; random grammars also take up to 6 alternatives, terminal names that coincide with non-terminal names, and the endmarker as a terminal (half of the time together with the distinct ordinary terminal $, which has the same Name()), non-terminals named like a quoted terminal or $; one third of the receivers hold bodies that share backing arrays or have spare capacity; every grammar passes Verify(); each gets NULLABLE, DEL, UNIT, UNREACH, CYCLES, ELR, LF, "
+        "non-terminals, long mixed bodies, two or three distinct factorable prefixes per head plus singleton alternatives, terminals spelled like non-terminals (also like suffixed names) at body position 0 and elsewhere, the endmarker declared or used as a terminal of the caller's grammar; random grammars also take up to 6 alternatives, terminal names that coincide with non-terminal names, and the endmarker as a terminal (half of the time together with the distinct ordinary terminal $, which has the same Name()), non-terminals named like a quoted terminal or $; non-terminal names that concatenate ambiguously (A, B, AB, BA, ABA); adversarial also: a single-production non-terminal starting with an earlier one and used by a later one (ELR), all-nullable bodies over such names, wide grammars with 14-16 / 32-34 / 67-69 heads; one third of the receivers hold bodies that share backing arrays or have spare capacity; every grammar passes Verify(); each gets NULLABLE, DEL, UNIT, UNREACH, CYCLES, ELR, LF, "
         "START, TERM, BIN, CNF and the parser constructors. A case is non-trivial when at least one transformation returned a grammar "
         "different from its input; distinct = distinct (grammar, op list).")
 
